@@ -240,7 +240,7 @@ def seq_bits(fr, v, kind):
         return fr.to_bitlist(bytes(v))
     if isinstance(v, BitArr) and kind != "bytes":
         return [cbit(x) for x in v]
-    if isinstance(v, list) and kind in ("list", "np"):
+    if isinstance(v, (list, tuple)) and kind in ("list", "np", "ba"):
         return [fr.to_bit(x) for x in v]
     raise Abort(f"cannot concatenate {type(v).__name__} to {kind}")
 
@@ -519,6 +519,8 @@ def getattr_(fr, base, attr, node):
     I = fr.I
     repo = I.repo
     if isinstance(base, AFin):
+        if all(isinstance(t, EnumMember) for t in base.table) and attr in ("value", "name"):
+            return fin_lift(lambda m_: getattr(m_, attr), base)
         try:
             base = fr.to_int(base)
         except Abort:
@@ -1005,6 +1007,10 @@ def b_int(fr, args, kw, n):
 
 def b_bool(fr, args, kw, n):
     v = args[0] if args else False
+    if isinstance(v, AInt):
+        c = fr.I_const(v)
+        if c is not None:
+            return bool(c)
     if isinstance(v, AInt) and (v.isbool or (v.ext is None and len(v.bits) == 1)):
         return AInt([v.bit(0)], isbool=True)
     if isinstance(v, AOpq):
@@ -1385,6 +1391,15 @@ def subscript_dict_abs(fr, d, key, n):
 
 def bits_method(fr, b: ABits, name, args, kw, n):
     I = fr.I
+    if b.kind == "bytes" and name in ("decode", "hex", "startswith", "endswith", "strip", "lstrip", "rstrip", "replace", "split", "find", "index", "count", "upper", "lower", "isdigit") \
+            and not any(is_abs(a) for a in args):
+        bits = I.simp_bits(b.items)
+        if all(isinstance(x, F) and x.is_const for x in bits):
+            raw = bytes(int("".join(str(x.c) for x in bits[i:i + 8]), 2) for i in range(0, len(bits), 8))
+            try:
+                return getattr(raw, name)(*args, **kw)
+            except Exception as e:
+                raise PathRaise(type(e).__name__, str(e))
     if name == "tobytes":
         items = list(b.items)
         if b.kind == "bytes":
